@@ -184,3 +184,21 @@ class Bomb:
 
     def __reduce__(self):
         return (_bomb_build, (self.guard,))
+
+
+# ---- C18: context targets
+def t_ctx(x=0, tag=None, base=0, *a, **k):
+    return (tag, base + x)
+
+
+# ---- C09: pool target: squares; 'hang' -> uncooperative loop; negative -> raises (kills the worker)
+def t_pool(x=0, *a, **k):
+    if x == 'hang':
+        while True:
+            try:
+                time.sleep(0.005)
+            except Exception:
+                pass
+    if isinstance(x, int) and x < 0:
+        raise ValueError('poison')
+    return x * x
